@@ -728,6 +728,8 @@ fn c08_post(plan: &mut LPlan, seed: u64) {
 pub fn all() -> Vec<Box<dyn Check>> {
     let mut v = l_checks();
     v.extend(k_checks());
+    v.push(Box::new(crate::tsim::c18::C18Check));
+    v.push(Box::new(crate::tsim::c20::C20Check));
     v
 }
 
